@@ -58,6 +58,21 @@ def has_tie(parsed):
     return False
 
 
+def tie_explained(ev0, ev):
+    """the two fact sets differ only by alternatives of one (direction, property) that carry the same count: which of
+    several equally frequent alternatives is printed depends on the order of arrival (finding F-C09-1)"""
+    for lab in set(ev0) | set(ev):
+        a = ev0.get(lab, (None, set()))[1] - ev.get(lab, (None, set()))[1]
+        b = ev.get(lab, (None, set()))[1] - ev0.get(lab, (None, set()))[1]
+        if not a and not b:
+            continue
+        ka = sorted((f[0], f[1], f[4]) for f in a)
+        kb = sorted((f[0], f[1], f[4]) for f in b)
+        if ka != kb:
+            return False
+    return True
+
+
 def run(ctx):
     rng = random.Random(ctx.seed * 86028121 + 9)
     kf = F.load("C09")
